@@ -50,11 +50,30 @@ def run(prog, tier, extra=None):
     R7 = res.rule("C19.slip-cap", "the transaction builders stop adding inputs/outputs at the count Transaction::validate still accepts", floor=2)
     R2 = res.rule("C19.private", "available_balance is written only inside impl Wallet (the field is private)", floor=1)
     fa = FieldAnalysis(prog)
+
+    def owner_of(b):
+        """plain closures act on behalf of the body that defines them (`keys.iter().for_each(|k| { self.unspent_slips.remove(k); })`)"""
+        p = b.path
+        while True:
+            cur = prog.bodies.get(p)
+            if cur is not None and cur.kind == "Closure" and not cur.is_coroutine and "::{closure#" in p:
+                p = p.rsplit("::{closure#", 1)[0]
+                continue
+            return p
+    own_closures = {}
     for b in prog.all_bodies():
-        if "::tests::" in b.path or "/test/" in b.file:
+        o = owner_of(b)
+        if o != b.path:
+            own_closures.setdefault(o, []).append(b)
+    for b in prog.all_bodies():
+        if "::tests::" in b.path or "/test/" in b.file or owner_of(b) != b.path:
             continue
         sites = [s for s in fa.sites(b, WALLET, "unspent_slips") if s[3] in ("insert", "remove", "replace", "unknown")]
         bw = balance_writes(b, fa)
+        own_first = (sites[0][1] if sites else bw[0][0]) if (sites or bw) else None
+        for cb in own_closures.get(b.path, []):
+            sites = sites + [s for s in fa.sites(cb, WALLET, "unspent_slips") if s[3] in ("insert", "remove", "replace", "unknown")]
+            bw = bw + balance_writes(cb, fa)
         if not sites and not bw:
             continue
         res.instance(R1)
@@ -82,7 +101,7 @@ def run(prog, tier, extra=None):
             problems.append("available_balance is assigned a value that is neither +=, -= nor 0")
         name = b.path.split("::", 4)[-1]
         if problems:
-            loc = b.loc((sites[0][1] if sites else bw[0][0]))
+            loc = b.loc(own_first if own_first is not None else 0)
             res.add(Finding(R1, "C19.co-mutation|%s" % b.path, "%s: %s" % (name, "; ".join(problems)), loc,
                             {"unspent_mutations": sorted(muts), "balance_writes": sorted(dirs)}))
         else:
@@ -90,7 +109,7 @@ def run(prog, tier, extra=None):
         if bw:
             res.instance(R2)
             if "consensus::wallet::Wallet::" not in b.path and "wallet::{impl" not in b.path:
-                res.add(Finding(R2, "C19.private|%s" % b.path, "%s writes Wallet.available_balance from outside impl Wallet" % name, b.loc(bw[0][0])))
+                res.add(Finding(R2, "C19.private|%s" % b.path, "%s writes Wallet.available_balance from outside impl Wallet" % name, b.loc(own_first if own_first is not None else 0)))
     # R3: deferred removals: a loop that subtracts a slip's amount and queues its key for removal from unspent_slips
     # does both or neither in every iteration
     from ..expr import call_name
@@ -101,7 +120,7 @@ def run(prog, tier, extra=None):
         subs = {bb for bb, d in balance_writes(b, fa) if d == "sub"}
         if not subs:
             continue
-        has_remove = any(s[3] == "remove" for s in fa.sites(b, WALLET, "unspent_slips"))
+        has_remove = any(s[3] == "remove" for x in [b] + own_closures.get(b.path, []) for s in fa.sites(x, WALLET, "unspent_slips"))
         if not has_remove:
             continue
         pushes = {}
